@@ -846,6 +846,10 @@ def _accumulate(fn, a, kwargs):
 
 
 def _np_dtype(dt):
+    if dt is globals().get("sym_float"):      # the repo modules' rebound `float` / `int`
+        return np.dtype("float64")
+    if dt is globals().get("sym_int"):
+        return np.dtype("int64")
     if dt is builtins.int:
         return np.dtype("int64")
     if dt is builtins.float or dt == "float":
@@ -1602,7 +1606,7 @@ class NPFacade:
         self._ov["empty"] = self._ov["zeros"]
         self._ov["full"] = lambda shape, fill_value, dtype=None, **k: filled(shape, fill_value, tag=dtype)
         self._ov["array"] = self._array
-        self._ov["asarray"] = self._array
+        self._ov["asarray"] = self._asarray
         self._ov["isscalar"] = lambda x: isinstance(x, Sym) or np.isscalar(x)
         self._ov["arange"] = self._arange
         self._ov["minimum"] = np.minimum
@@ -1612,6 +1616,15 @@ class NPFacade:
     def _arange(*args, **kw):
         args = [builtins.int(a) if isinstance(a, SInt) else a for a in args]
         return np.arange(*args, **kw)
+
+    @staticmethod
+    def _asarray(obj, dtype=None, **kw):
+        """np.asarray: NO copy when the input already is an array of the requested dtype (the result aliases the caller's array)"""
+        if isinstance(obj, SymArray):
+            tag = getattr(obj, "tag", None)
+            if dtype is None or (tag is not None and _np_dtype(dtype) == tag):
+                return obj
+        return NPFacade._array(obj, dtype=dtype, copy=False if isinstance(obj, SymArray) else True, **kw) if isinstance(obj, (SymArray, Sym, list, tuple)) else np.asarray(obj, dtype=dtype, **kw)
 
     @staticmethod
     def _array(obj, dtype=None, copy=True, **kw):
